@@ -52,6 +52,37 @@ type AppDB struct {
 
 	isDirtyPrice bool
 	price        *TimePrice
+
+	batch db.Batch // records of the block being committed, written atomically by FinishCommit
+}
+
+// StartCommit collects the records written until FinishCommit into one batch, so that a crash during Commit
+// leaves either all records of the previous block or all records of the new one
+func (appDB *AppDB) StartCommit() {
+	appDB.batch = appDB.db.NewBatch()
+}
+
+// FinishCommit writes the collected records atomically, panics on error
+func (appDB *AppDB) FinishCommit() {
+	batch := appDB.batch
+	appDB.batch = nil
+	if batch == nil {
+		return
+	}
+	defer batch.Close()
+
+	appDB.WG.Wait()
+
+	if err := batch.WriteSync(); err != nil {
+		panic(err)
+	}
+}
+
+func (appDB *AppDB) set(key, value []byte) error {
+	if appDB.batch != nil {
+		return appDB.batch.Set(key, value)
+	}
+	return appDB.db.Set(key, value)
 }
 
 // Close closes db connection, panics on error
@@ -87,7 +118,7 @@ func (appDB *AppDB) GetLastBlockHash() []byte {
 func (appDB *AppDB) SetLastBlockHash(hash []byte) {
 	appDB.WG.Wait()
 
-	if err := appDB.db.Set([]byte(hashPath), hash); err != nil {
+	if err := appDB.set([]byte(hashPath), hash); err != nil {
 		panic(err)
 	}
 }
@@ -122,7 +153,7 @@ func (appDB *AppDB) SetLastHeight(height uint64) {
 
 	appDB.WG.Wait()
 
-	if err := appDB.db.Set([]byte(heightPath), h); err != nil {
+	if err := appDB.set([]byte(heightPath), h); err != nil {
 		panic(err)
 	}
 
@@ -217,7 +248,7 @@ func (appDB *AppDB) FlushValidators() {
 
 	appDB.WG.Wait()
 
-	if err := appDB.db.Set([]byte(validatorsPath), data); err != nil {
+	if err := appDB.set([]byte(validatorsPath), data); err != nil {
 		panic(err)
 	}
 	appDB.validators = nil
@@ -297,7 +328,7 @@ func (appDB *AppDB) SaveBlocksTime() {
 
 	appDB.WG.Wait()
 
-	if err := appDB.db.Set([]byte(blocksTimePath), data); err != nil {
+	if err := appDB.set([]byte(blocksTimePath), data); err != nil {
 		panic(err)
 	}
 }
@@ -378,7 +409,7 @@ func (appDB *AppDB) SaveVersions() {
 
 	appDB.WG.Wait()
 
-	if err := appDB.db.Set([]byte(versionsPath), data); err != nil {
+	if err := appDB.set([]byte(versionsPath), data); err != nil {
 		panic(err)
 	}
 
@@ -420,7 +451,7 @@ func (appDB *AppDB) SaveEmission() {
 	}
 
 	appDB.WG.Wait()
-	if err := appDB.db.Set([]byte(emissionPath), appDB.emission.Bytes()); err != nil {
+	if err := appDB.set([]byte(emissionPath), appDB.emission.Bytes()); err != nil {
 		panic(err)
 	}
 	appDB.isDirtyEmission = false
@@ -566,7 +597,7 @@ func (appDB *AppDB) SavePrice() {
 		panic(err)
 	}
 
-	err = appDB.db.Set([]byte(pricePath), bytes)
+	err = appDB.set([]byte(pricePath), bytes)
 	if err != nil {
 		panic(err)
 	}
